@@ -616,8 +616,74 @@ def check_wide1(E, acc):
         acc.case(("wide1", E, data), nontrivial=len(cells) > 1, outcome=("wide1", E, len(cells)), sample=lambda: base)
 
 
+def check_weight_invariances(acc, only=None):
+    """Weighted statistics do not depend on the SCALE of the weights (all weights x 1e-14 .. 1e8), and the weighted quantile treats a negative
+    weight as zero whether or not another weight is missing: library against library (and against the exact oracle for stddev)."""
+    from catii.xcubes import xcube
+
+    N = 4
+    w0 = numpy.array([0.5, 1.0, 2.0, 4.0])
+    f1, x1, v1 = fact_arg(N, [0], (False,) * N, "nan")
+    f2, x2, v2 = fact_arg(N, [0, 1], (False,) * (2 * N), "nan")
+    fmt = (0, False)
+
+    def same(a, b):
+        av, ao = numpy.asarray(a[0], dtype=float), numpy.asarray(a[1]).astype(bool)
+        bv, bo = numpy.asarray(b[0], dtype=float), numpy.asarray(b[1]).astype(bool)
+        return av.shape == bv.shape and numpy.array_equal(ao, bo) and numpy.allclose(av[ao], bv[bo], rtol=1e-9, atol=0)
+
+    for data in itertools.product(range(2), repeat=N):
+        dense = numpy.array(data, dtype=numpy.int64)
+        mk = lambda: xcube([dense], interacting_shape=(3,))  # noqa
+        stats = [
+            ("stddev", lambda w: mk().stddev(flat1(fact_arg(N, [0], (False,) * N, "nan")[0]), w, True, fmt)),
+            ("stddev-2col", lambda w: mk().stddev(fact_arg(N, [0, 1], (False,) * (2 * N), "nan")[0], w, True, fmt)),
+            ("quantile", lambda w: mk().quantile(flat1(fact_arg(N, [0], (False,) * N, "nan")[0]), 0.5, w, True, fmt)),
+            ("covariance", lambda w: mk().covariance(fact_arg(N, [0, 1], (False,) * (2 * N), "nan")[0], w, True, fmt)),
+            ("mean", lambda w: mk().mean(flat1(fact_arg(N, [0], (False,) * N, "nan")[0]), w, True, fmt)),
+        ]
+        for stat, fn in stats:
+            case = {"weight_invariance": stat, "data": list(data)}
+            if only is not None and (only.get("weight_invariance"), only.get("data")) != (stat, list(data)):
+                continue
+            try:
+                base = fn(w0.copy())
+                for scale in (1e-14, 1e-10, 1e-3, 1e8):
+                    got = fn(w0 * scale)
+                    acc.count("evals", 1)
+                    if not same(got, base):
+                        acc.violation("xcube:%s" % stat.split("-")[0], dict(case, scale=scale), "with all weights x %g: %r / validity %r; with weights x 1: %r / %r" % (
+                            scale, numpy.asarray(got[0]).tolist(), numpy.asarray(got[1]).astype(int).tolist(), numpy.asarray(base[0]).tolist(), numpy.asarray(base[1]).astype(int).tolist()))
+                        break
+            except Exception as e:  # noqa
+                acc.violation("xcube:%s" % stat.split("-")[0], case, "raised %r" % (e,))
+        # negative weights in the weighted quantile == zero weights, with and without a missing weight elsewhere
+        for neg_at in range(N):
+            for nan_at in [None] + [i for i in range(N) if i != neg_at]:
+                for ignore in (False, True):
+                    for p in (0.0, 0.5):
+                        case = {"weight_invariance": "quantile-negative", "data": list(data), "negative_at": neg_at, "missing_at": nan_at, "ignore": ignore, "p": p}
+                        if only is not None and {k: only.get(k) for k in case} != case:
+                            continue
+                        wn, wz = w0.copy(), w0.copy()
+                        wn[neg_at], wz[neg_at] = -3.0, 0.0
+                        if nan_at is not None:
+                            wn[nan_at] = wz[nan_at] = NaN
+                        try:
+                            a = mk().quantile(flat1(fact_arg(N, [0], (False,) * N, "nan")[0]), p, wn, ignore, fmt)
+                            b = mk().quantile(flat1(fact_arg(N, [0], (False,) * N, "nan")[0]), p, wz, ignore, fmt)
+                            acc.count("evals", 2)
+                        except Exception as e:  # noqa
+                            acc.violation("xcube:quantile", case, "raised %r" % (e,))
+                            continue
+                        if not same(a, b):
+                            acc.violation("xcube:quantile", case, "negative weight: %r / %r; the same weight as 0: %r / %r" % (
+                                numpy.asarray(a[0]).tolist(), numpy.asarray(a[1]).astype(int).tolist(), numpy.asarray(b[0]).tolist(), numpy.asarray(b[1]).astype(int).tolist()))
+        acc.case(("winv", data), nontrivial=len(set(data)) > 1, outcome=("winv",), sample=lambda: {"weight_invariance": True, "data": list(data)})
+
+
 def blocks(tier):
-    out = [("narrow-dims", {"i": i}) for i in range(len(NARROW_DIMS))] + [("wide1", {"E": E}) for E in WIDE1]
+    out = [("narrow-dims", {"i": i}) for i in range(len(NARROW_DIMS))] + [("wide1", {"E": E}) for E in WIDE1] + [("weight-invariance", {})]
     for si, cfg in enumerate(SETS[tier]):
         for N in cfg["Ns"]:
             D = cfg["D"]
@@ -631,6 +697,9 @@ def blocks(tier):
 def run_block(family, p, acc):
     if family == "wide1":
         check_wide1(p["E"], acc)
+        return
+    if family == "weight-invariance":
+        check_weight_invariances(acc)
         return
     if family == "narrow-dims":
         check_narrow_dims(p["i"], acc)
@@ -671,7 +740,9 @@ def replay(case, site=None):
     from ..core import Acc
 
     acc = Acc(ID, [], stop_at_first=False)
-    if "wide1" in case:
+    if "weight_invariance" in case:
+        check_weight_invariances(acc, only=case)
+    elif "wide1" in case:
         check_wide1(case["wide1"], acc)
     elif "narrow_dims" in case:
         check_narrow_dims(case["narrow_dims"], acc)
